@@ -62,6 +62,7 @@ def run(ctx):
     ctx.rule('NODROP', 'no validator drops or swallows a checker result')
     ctx.rule('SIBLING', 'reports reach every leaf their cumulative validator reaches')
     ctx.rule('LEAFREAD', 'each leaf checker (transitively) reads the data its invariant is about')
+    ctx.rule('LEAFFLAT', 'the geometric-orientation leaf refuses a cell whose orientation predicate is zero (a flat cell), per cell')
     ctx.rule('LEAFARITY', 'Cell::is_valid refuses every vertex count other than D + 1 (an equality test, not a lower bound)')
     ctx.rule('LEAFMUTUAL', 'the neighbour check of a shared facet requires both cells to name each other')
     _witness(ctx)
@@ -75,6 +76,7 @@ def run(ctx):
         _leafread(ctx, cfg, prog)
         _leafmutual(ctx, cfg, prog)
         _leafarity(ctx, cfg, prog)
+        _leafflat(ctx, cfg, prog)
     return ctx.finish(EXPLANATION)
 
 
@@ -183,6 +185,80 @@ def _slice_info(b, local, depth=40, fields=None):
                     work.append(node.rv.place.local)
                     fields.update(str(x) for x in node.rv.place.proj)
     return calls, hasD
+
+
+GEOM_ORIENT = 'core::triangulation::Triangulation::validate_geometric_cell_orientation'
+ECO_ = 'core::triangulation::Triangulation::evaluate_cell_orientation_for_context'
+
+
+def _leafflat(ctx, cfg, prog):
+    """LEAFFLAT: "inverted or flat cell" is owned by the Level-3 leaf `validate_geometric_cell_orientation` (Levels 1-2 and
+    every other Level-3 leaf are combinatorial).  Inside its loop over the cells there is a comparison of the orientation
+    sign (the i32 delivered by `evaluate_cell_orientation_for_context`) with a literal such that the branch taken for the
+    value 0 reaches no success exit.  `orientation.is_negative()` / `orientation < 0` alone lets a zero-volume cell pass."""
+    b = prog.bodies.get(GEOM_ORIENT)
+    if b is None:
+        ctx.ob('ANCHOR', 'missing|' + GEOM_ORIENT, cfg, False, 'LEAFFLAT names a function that no longer exists')
+        return
+    site = '%s:%d' % (b.file, b.line)
+    signs = set()
+    for bb, t in b.calls():
+        if (t.resolved or t.callee) == ECO_ and t.dest is not None and t.dest.is_local() and bb in flow.reach_edges(b, b.succs(bb)):
+            signs.add(t.dest.local)
+    changed = True
+    while changed:
+        changed = False
+        for blk in b.blocks:
+            for s_ in blk.stmts:
+                if s_.kind == 'A' and s_.place.is_local() and s_.place.local not in signs and s_.rv.k == 'use' and s_.rv.ops \
+                        and s_.rv.ops[0].place is not None and s_.rv.ops[0].place.local in signs:
+                    signs.add(s_.place.local)
+                    changed = True
+            t = blk.term
+            if t.k == 'call' and t.dest is not None and t.dest.is_local() and t.dest.local not in signs and \
+                    any(o.place is not None and o.place.local in signs for o in t.args) and \
+                    any(k in (t.resolved or t.callee or '') for k in ('Try>::branch', 'FromResidual')):
+                signs.add(t.dest.local)
+                changed = True
+    exits = {e['bb'] for e in gate.success_exit_blocks(b)}
+    found = []
+    ev = {'Eq': lambda a, k: a == k, 'Ne': lambda a, k: a != k, 'Lt': lambda a, k: a < k, 'Le': lambda a, k: a <= k,
+          'Gt': lambda a, k: a > k, 'Ge': lambda a, k: a >= k}
+    for blk in b.blocks:
+        if blk.cleanup:
+            continue
+        for s_ in blk.stmts:
+            if s_.kind != 'A' or s_.rv.k != 'bin' or s_.rv.raw.get('op') not in ev or not s_.place.is_local():
+                continue
+            a_, b_ = s_.rv.ops
+            iss = lambda o: o.place is not None and o.place.is_local() and b.locals[o.place.local] == 'i32' and o.place.local in signs
+            lit = lambda o: o.int_value() if o.kind == 'k' else None
+            if iss(a_) and lit(b_) is not None:
+                truth0 = ev[s_.rv.raw['op']](0, lit(b_))
+            elif iss(b_) and lit(a_) is not None:
+                truth0 = ev[s_.rv.raw['op']](lit(a_), 0)
+            else:
+                continue
+            t = blk.term
+            if t.k != 'switch' or t.discr.place is None or t.discr.place.local != s_.place.local:
+                continue
+            listed = {v: tg for v, tg in t.values}
+            tgt_true = t.otherwise if 0 in listed else listed.get(1, t.otherwise)
+            tgt_false = listed.get(0, t.otherwise)
+            zero_edge = tgt_true if truth0 else tgt_false
+            if not (exits & flow.reach_edges(b, [zero_edge])):
+                found.append(s_.line)
+        t = blk.term
+        if t.k == 'switch' and t.discr.place is not None and t.discr.place.is_local() and t.discr.place.local in signs and \
+                b.locals[t.discr.place.local] == 'i32':
+            listed = {v: tg for v, tg in t.values}
+            z = listed.get(0, t.otherwise)
+            if not (exits & flow.reach_edges(b, [z])):
+                found.append(t.line)
+    ctx.ob('LEAFFLAT', GEOM_ORIENT, cfg, bool(found),
+           'the branch taken for orientation == 0 refuses at line %s' % found[:2] if found else
+           'no comparison of the per-cell orientation sign sends the value 0 to a refusal: a flat (zero-volume) cell passes the only '
+           'leaf that looks at geometry (%d sign locals)' % len(signs), site=site)
 
 
 def _leafarity(ctx, cfg, prog):
